@@ -41,10 +41,11 @@ call can keep them.
         whose condition jedi's flow analysis decides statically from a partial inference of `p`; names bound
         in the `unreachable` branch have no definition for goto, `not name_definitions` makes them
         parameters, the call site reads a name that only the selection binds
-  extract-function-try-body-binding-assumed-in-handler   a try statement nested in another flow statement: a
-        read in the `except` clause is resolved to a binding of the try body as if that had certainly
-        happened (flow_analysis.reachability_check: `branch_matches` of the try is overwritten by that of
-        the enclosing flow statement), the value from before the selection is not a parameter
+  extract-function-nested-try-clause-binding-assumed   a try statement nested in another flow statement: a
+        read in one clause (except / finally) is resolved to a binding in another clause of the same try
+        statement (try body, except) as if that had certainly happened (flow_analysis.reachability_check:
+        `branch_matches` of the try is overwritten by that of the enclosing flow statement), the value
+        from before the selection is not a parameter
   extract-function-single-return-statement          the selection is exactly one `return x` line including its line
         break: _find_nodes takes `children[1]` of the simple_stmt (the newline) for the returned expression
   extract-function-no-output-variable               the selection binds no name and does not end in `return`:
@@ -423,7 +424,8 @@ class Unbound:
             return self.join(done, *inner['brk'])
         if isinstance(s, ast.Try):
             body_out = self.block(s.body, state, jumps)
-            if self.tryhandler and self.nested > 1:
+            blind = self.tryhandler and self.nested > 1
+            if blind:
                 handler_in = body_out if body_out is not None else state
             else:
                 handler_in = state      # the exception may come before anything of the body was bound
@@ -432,7 +434,14 @@ class Unbound:
                 outs.append(self.block(h.body, handler_in, jumps))
             out = self.join(*outs)
             if s.finalbody:
-                out = self.block(s.finalbody, out if out is not None else state, jumps)
+                fin_in = out if out is not None else state
+                if not blind:
+                    return self.block(s.finalbody, fin_in, jumps)
+                # a binding in any clause counts as having happened for the reads of the finally clause; the
+                # state behind the statement stays that of the real join
+                live = [x for x in outs if x is not None]
+                self.block(s.finalbody, all(live) if live else state, jumps)
+                return False if any(self.binds(x) for x in s.finalbody) else fin_in
             return out
         raise AssertionError(s)
 
@@ -541,7 +550,7 @@ def analyse(src, request):
 # attributed to the first entry under which the name is no longer read before it is bound
 VARIANTS = [('forbody',), ('tryhandler',), ('forbody', 'tryhandler')]
 VARIANT_SHAPE = {'forbody': 'extract-function-for-body-assumed-executed',
-                 'tryhandler': 'extract-function-try-body-binding-assumed-in-handler'}
+                 'tryhandler': 'extract-function-nested-try-clause-binding-assumed'}
 
 
 def failing_statement(src, facts, new_code, lineno, new_name):
